@@ -64,7 +64,7 @@ def decide(asserts, timeout_ms=60000, tries=12, seed=0, keep_free=2, guided_time
             rng.shuffle(order)
             nfree = keep_free if k % 2 == 0 else max(1, keep_free - 1)
             for v in order[nfree:]:
-                s2.add(v == z3.Q(rng.randint(-9, 9), rng.choice([1, 1, 2, 3, 4])))
+                s2.add(v == z3.Q(rng.randint(-5, 5), rng.choice([1, 2, 2, 3, 4, 5])))
             if str(s2.check()) == "sat":
                 return Result("sat", s2.model(), time.time() - t0, f"guided slice {k}", len(vs))
         return None
